@@ -48,6 +48,9 @@ type Program struct {
 
 	funcs     []*Func
 	funcsOnce bool
+	flat      map[*Func]*Func
+	// Opaque: helpers Flatten must keep as calls (set by the rules package)
+	Opaque func(*Func) bool
 }
 
 // Load type-checks the library packages of the repository from source (their
@@ -130,6 +133,10 @@ type Func struct {
 	Body   *ast.BlockStmt
 	Type   *ast.FuncType
 	Lits   []*Func // directly nested literals
+
+	// set on flattened views only (see Flatten)
+	Origin  *Func          // the declared function the view was made from
+	Members map[*Func]bool // Origin and every helper whose statements were inlined
 }
 
 func (f *Func) Node() ast.Node {
